@@ -60,7 +60,8 @@ ASSUMPTIONS = ['all model variables are float64 series; integers passed to the e
                'FParse.v reads the generated statement by the expression grammar of gfortran (matchexp.c with the GNU unary-minus extension); '
                'that this IS how gfortran groups the operators is observed through the float part of K (bit-equal values), not proved',
                'the instance-level lags / leads / endogenous are the class-level ones generated from the symbols, or lags / leads RAISED by the user '
-               '(generated; both engines then use the instance values for the feasibility guard and the default range). LOWERING m.lags / m.leads '
+               '(generated; both engines then use the instance values for the default range of solve() and for the guard of solve_t; a period GIVEN to '
+               'solve(start=/end=) that only the raised values make infeasible is rejected by the Python engine and solved by the compiled routine). LOWERING m.lags / m.leads '
                'below the compiled values, or removing names from m.endogenous, is outside C07: the Python engine then reads wrapped-around values '
                '(the subject of C04) where the compiled guard raises IndexError, and the template copies the compiled endogenous list under offset',
                'theorems: IEEE sign symmetry (-x)*y = -(x*y), (-x)/y = -(x/y) is a hypothesis (Fortran reads -a*b as -(a*b)); exp/log/** are '
@@ -580,6 +581,15 @@ def corpus(rng):
     P.append(prog(['Y', ['b', '+', ['b', '*', ['d', '0.5'], ['v', 'Y', 0]], ['b', '/', ['v', 'X', 0], ['i', 2]]]], family='lit'))
     P.append(prog(['Y', ['b', '+', ['b', '^', ['v', 'X', 0], ['i', 3]], ['b', '^', ['v', 'Z', 0], ['neg', ['i', 2]]]]], family='powi'))
 
+    # the commonest literal uses inside the common subset (FBenignFacts.benign): integer constant arithmetic, a negated / abs'ed exact
+    # decimal, max / min against an exact decimal — bit-equal in both engines
+    Xv, Zv = ['v', 'X', 0], ['v', 'Z', 0]
+    P.append(prog(['Y', ['b', '-', ['b', '+', ['b', '+', ['b', '+', ['b', '*', ['b', '*', ['i', 2], ['i', 3]], Xv],
+                                                       ['b', '*', ['b', '+', ['i', 1], ['i', 2]], Zv]],
+                                            ['b', '*', ['f', 'abs', ['neg', ['d', '1.5']]], Xv]],
+                                 ['m', 'max', Xv, ['d', '0.0']]],
+                        ['m', 'min', ['d', '1.5'], Zv]]], family='lit'))
+    P.append(prog(['Y', ['b', '+', ['b', '*', ['neg', ['d', '0.25']], ['v', 'Y', -1]], ['b', '/', Xv, ['b', '-', ['i', 7], ['i', 3]]]]], family='lit'))
     # every production of the Fortran expression grammar that places a sign (FParse.p_level2 / p_ext_add / p_ext_mult / `**` operand)
     X, Z, W = ['v', 'X', 0], ['v', 'Z', 0], ['v', 'G', 0]
     neg = lambda a: ['neg', a]
@@ -1579,6 +1589,10 @@ def oracle(case, obs):
         return fails                                       # t outside the span
     pyo, fo = py['out'], f['out']
     infeasible = [p for p in ps if not feasible(case, obs, p)]
+    if infeasible and case.get('edit'):
+        # instance lags / leads raised by the user AND a period that only the raised values make infeasible: FortranEngine.solve hands the
+        # periods to the compiled routine, whose guard uses the compiled lags / leads (outside C07, see ASSUMPTIONS; K still compares both models)
+        return fails
     if infeasible and case['entry'] == 'evaluate':
         # _evaluate called directly: the generated Python has no feasibility guard (kept finding); solve_t / solve agree since fix 1354783
         if pyo != fo:
